@@ -90,14 +90,14 @@ def multiset_diff(ret, exp):
     return exp, extra      # missing, extra
 
 
-def h_run(W, N, E, D, poison, efn, callsrc, dbl, dup, s0, s1, s2, s3, s4, s5, s6, s7, s8, s9, s10, s11):
+def h_run(W, N, E, D, poison, efn, callsrc, dbl, dup, second, s0, s1, s2, s3, s4, s5, s6, s7, s8, s9, s10, s11):
     # The symbolic integers never enter pyworkers code here: they are consumed by comparisons in _conc() and
     # Sched.pick() (SymbolicInt.__eq__/__bool__ talk to the solver directly), so the opcode tracer is not needed.
     with notrace():
-        return _h_run(W, N, E, D, poison, efn, callsrc, dbl, dup, [s0, s1, s2, s3, s4, s5, s6, s7, s8, s9, s10, s11])
+        return _h_run(W, N, E, D, poison, efn, callsrc, dbl, dup, second, [s0, s1, s2, s3, s4, s5, s6, s7, s8, s9, s10, s11])
 
 
-def _h_run(W, N, E, D, poison, efn, callsrc, dbl, dup, ss):
+def _h_run(W, N, E, D, poison, efn, callsrc, dbl, dup, second, ss):
     vos.reset()
     W = max(1, _conc(W, 4))
     N = _conc(N, 7)
@@ -108,6 +108,7 @@ def _h_run(W, N, E, D, poison, efn, callsrc, dbl, dup, ss):
     callsrc = _conc(callsrc, 2)
     dbl = _conc(dbl, 2)
     dup = _conc(dup, 3)
+    second = _conc(second, 2)
     sched = Sched(ss)
     env = poolenv.Env(sched, W, D, poison=(poison - 1 if poison else None), double_ready=bool(dbl))
     ev("run", W, N, E, D, poison, efn, callsrc, dbl)
@@ -121,6 +122,12 @@ def _h_run(W, N, E, D, poison, efn, callsrc, dbl, dup, ss):
         return Outcome("c07.run.%s" % ("spins" if "spin" in val[1] else "blocks-forever"), True, str(val))
     if kind == "exc":
         return Outcome("c07.run.raises-%s-in-%s" % (type(val).__name__, _inner_fn(val)), True, repr(val))
+    if second and kind in ("poolerror", "ret"):
+        # a second run on the same pool, after one more (healthy) worker has been added: its results must
+        # correspond to its own inputs only, whatever the first run left behind
+        sig2 = _second_run(pool, env, E)
+        if sig2 is not None:
+            return Outcome(sig2 + ("|after-failed-run" if kind == "poolerror" else "|after-successful-run"), True)
     if kind == "poolerror":
         return Outcome(None, interesting)
     if pool._map_guard:
@@ -138,8 +145,34 @@ def _h_run(W, N, E, D, poison, efn, callsrc, dbl, dup, ss):
     return Outcome(None, interesting)
 
 
+def _second_run(pool, env, E):
+    w = poolenv.FakePW(env, len(env.workers))
+    env.workers.append(w)
+    pool._workers[w.id] = w
+    pool._queues[w.id] = w.conn
+    env.deaths_left = 0
+    env.poison = None
+    inputs = [100, 101]
+    try:
+        ret = pool.run(iter(inputs), worker_extra_pending_inputs=E)
+    except PoolError:
+        return "c07.second-run.fails-although-a-healthy-worker-was-added"
+    except vos.Hang:
+        return "c07.second-run.blocks-forever"
+    except Exception as e:  # noqa
+        return "c07.second-run.raises-%s-in-%s" % (type(e).__name__, _inner_fn(e))
+    if ret is None:
+        return "c07.second-run.returns-None"
+    missing, extra = multiset_diff(ret, [poolenv.target(x) for x in inputs])
+    if extra:
+        return "c07.second-run.result-of-an-earlier-run"
+    if missing:
+        return "c07.second-run.missing-result"
+    return None
+
+
 _params = OrderedDict([("W", (1, 3)), ("N", (0, 6)), ("E", (0, 2)), ("D", (0, 3)), ("poison", (0, 6)), ("efn", (0, 63)),
-                       ("callsrc", (0, 1)), ("dbl", (0, 1)), ("dup", (0, 2))] + [("s%d" % i, (0, 5)) for i in range(NSCHED)])
+                       ("callsrc", (0, 1)), ("dbl", (0, 1)), ("dup", (0, 2)), ("second", (0, 1))] + [("s%d" % i, (0, 5)) for i in range(NSCHED)])
 
 _FUNCS = ["pyworkers.pool:Pool.run", "pyworkers.pool:Pool.__init__", "pyworkers.pool:Pool._get_all_workers_ids",
           "pyworkers.pool:Pool._get_all_queues", "pyworkers.pool:Pool._aux_connection"]
@@ -150,6 +183,7 @@ H_RUN = Harness(
         "quick": {"ranges": {"W": (1, 2), "N": (0, 4), "E": (0, 1), "D": (0, 2), "poison": (0, 1), "dup": (0, 1)},
                   "fixed": {"callsrc": 0, "dbl": 0, "efn": 0},
                   "partition": ["W", "N", "E", "D", "dup"], "filter": (lambda f: (f["D"] < 2 or f["N"] <= 2) and (f["dup"] == 0 or (f["N"] in (2, 3) and f["D"] == 1))), "timeout": 200,
+                  "extra_pre": ["second == 0 or (N <= 2 and dup == 0 and D <= 1)"],
                   "twin_fixed": {"W": 2, "N": 3, "E": 1, "D": 1, "dup": 0}},
         "thorough": {"ranges": {"N": (0, 5), "efn": (0, 3)},
                      "partition": ["W", "N", "E", "D", "poison"], "filter": (lambda f: f["poison"] <= f["N"]), "timeout": 1500,
